@@ -174,3 +174,66 @@ func CtxWithTimeout(parent context.Context, d time.Duration) (context.Context, c
 	}
 	return CtxWithDeadline(parent, TimeNow().Add(d))
 }
+
+// CtxAfterFunc replaces context.AfterFunc: inside an execution f runs on a controlled (daemon)
+// thread once ctx is done, so that what f does is part of the explored interleavings instead of
+// happening on an unmanaged goroutine whose shim calls would pass through to the real primitives.
+func CtxAfterFunc(ctx context.Context, f func()) (stop func() bool) {
+	_, t := managed()
+	if t == nil {
+		return context.AfterFunc(ctx, f)
+	}
+	d := ctx.Done()
+	state := 0 // 0 pending, 1 started, 2 stopped; only touched inside scheduling points
+	if d == nil {
+		return func() bool {
+			ee, tt := managed()
+			stopped := false
+			if tt != nil {
+				ee.simple(tt, "ctx.afterfunc.stop", func() {
+					if state == 0 {
+						state, stopped = 2, true
+					}
+				})
+			}
+			return stopped
+		}
+	}
+	stopCh := MakeChan[struct{}](0)
+	GoNamed("ctx.afterfunc", true, func() {
+		a := RecvCase(d)
+		b := RecvCase[struct{}](stopCh)
+		if Select(false, a, b) != 0 {
+			return
+		}
+		run := false
+		ee, tt := managed()
+		if tt == nil {
+			return
+		}
+		ee.simple(tt, "ctx.afterfunc.start", func() {
+			if state == 0 {
+				state, run = 1, true
+			}
+		})
+		if run {
+			f()
+		}
+	})
+	return func() bool {
+		ee, tt := managed()
+		if tt == nil {
+			return false
+		}
+		stopped := false
+		ee.simple(tt, "ctx.afterfunc.stop", func() {
+			if state == 0 {
+				state, stopped = 2, true
+			}
+		})
+		if stopped {
+			Close(stopCh)
+		}
+		return stopped
+	}
+}
